@@ -12,15 +12,15 @@ for i in ids:
     title=next((l.strip('# ').strip() for l in readme.splitlines() if l.strip()), '')
     m.setdefault('id', i); m['property']=prop
     m.setdefault('what', title[:300])
-    k=int(i.split('-')[1]); rnd=(k-1)//2+1; log=f'/tmp/seed{rnd if rnd>1 else ""}.out/{prop}/{(k-1)%2+1}.confirm.log'
-    if os.path.exists(log):
-        res=[l for l in open(log) if l.startswith('RESULT')]
+    for log in sorted(glob.glob(f'/tmp/seed*.out/{prop}/*.confirm.log')):
+        res=[l for l in open(log) if l.startswith(f'RESULT {i} ')]
         if res: m['confirmed']=res[-1].strip()
     m.setdefault('needs_to_manifest', 'see README.md (sub-agent description): a specific input, interleaving or multi-step sequence')
     m['ran']='tools/confirm_seed.sh: git apply in a scratch worktree of /repo; go build; full suite x3 (a test counts as broken only if it fails in all runs; TestPing ignored); demo x2 with the patch (must fail) and x2 without (must pass)'
     m['expect_static']='fire'   # provisional, corrected below
     json.dump(m,open(mp,'w'),indent=1)
 out=subprocess.run(['/verif/bin/goircsa','-selftest','all'],capture_output=True,text=True).stdout
+open('/tmp/selftest_all.log','w').write(out)
 for line in out.splitlines():
     mm=re.match(r'(ok|FAIL)\s+seed-(\S+)\s+(\S+)\s+expect=\S+\s+got=(\S+)\s+rules=\[(.*?)\]\s+want=\S*\s*(.*)',line)
     if not mm: continue
